@@ -29,7 +29,7 @@ META = {
         "TranslationError; C08.6 the server's loads call sits inside the catch-all parse guard that answers -32700 and "
         "cannot reach the dispatch.; C08.7 (shared) the -32700 reply to a rejected payload can always be encoded (imported C02.6), and servers / proxies keep the caller's Config object itself, so switching use_jsonclass off on it afterwards is effective (imported C07.7) C08.8 (imported from C05.4) the -32700 fault built for a rejected payload carries a message derived from the exception and no request-derived data object: the reply can always be serialised, so the rejection really reaches the client as -32700."),
     "does_not_decide": "that nothing is imported as an observed event; behaviour of __import__ on valid-looking names.",
-    "rules": {"C08.8": "imported C05.4 (error message / data of the dispatcher faults)",
+    "rules": {"C08.9": "imported C14.4 (loads evaluated by E7)", "C08.8": "imported C05.4 (error message / data of the dispatcher faults)",
               "C08.7": "imported C02.6, C07.7", "C08.1": "who-may-call + dominance", "C08.2": "provenance of the config argument", "C08.3": "who-may-call on dynamic-code primitives",
               "C08.4": "dominance in jsonclass.load", "C08.5": "regex AST analysis (re._parser) vs spec table A.4", "C08.6": "handler structure + reachability"},
     "assumptions": ["re.sub(P, '', s) != s iff s contains a match of P"],
@@ -352,6 +352,13 @@ def check(ck):
     from rules import c05 as _c05d
     _cm8.import_rules(ck, _c05d, {"C05.4": "C08.8"})
     ck.floor("C08.8", 4)
+
+    # ---- C08.9 every parsed payload goes through the translator gate (shared with C14.4) -------------------------------------------
+    # loads() hands what the JSON parser returned to load() on every path: a fast path that skips load() for texts that do not
+    # *spell* "__jsonclass__" misses descriptors whose key is written with JSON escapes
+    from rules import c14 as _c14g
+    _cm8.import_rules(ck, _c14g, {"C14.4": "C08.9"})
+    ck.floor("C08.9", 4)
 
 
 def _straight(g, nid, limit=12):
